@@ -217,13 +217,29 @@ Section TracerFacts.
   (* every name is a series of the store and t addresses one of its cells *)
   Definition names_valid (v : vals) (t : Z) (names : list nat) : Prop :=
     Forall (fun x => exists row, nth_error v x = Some row /\ exists q, py_pos (length row) t = Some q) names.
-  (* the period's existing Trace is still empty or has as many rows as there are names now *)
-  Definition width_ok (x : trace) (w : nat) : Prop :=
-    match tr_values x with [] => True | c :: _ => length c = w end.
+  (* the period's existing Trace can take a snapshot of `names`: it is still empty, or it was recorded for other names (then
+     trace_t starts a fresh one: fix 7d04ae5), or it has one row per name.  Every Trace the class itself builds is well
+     formed (wf_trace) and therefore passes: wf_width_ok. *)
+  Definition width_ok (x : trace) (names : list nat) : Prop :=
+    match tr_values x with [] => True | c :: _ => tr_names x = names -> length c = length names end.
+
+  Lemma names_eqb_eq a : forall b, names_eqb a b = true <-> a = b.
+  Proof.
+    induction a as [|x a IH]; intros [|y b]; cbn [Tracer.names_eqb]; split; intros H; try reflexivity; try discriminate.
+    - apply andb_prop in H. destruct H as [H1 H2]. apply Nat.eqb_eq in H1. apply IH in H2. congruence.
+    - inversion H; subst. rewrite Nat.eqb_refl. cbn [andb]. apply IH. reflexivity.
+  Qed.
+
+  Lemma wf_width_ok (x : trace) names : wf_trace num x = true -> width_ok x names.
+  Proof.
+    unfold Tracer.wf_trace, width_ok. intros H. apply andb_prop in H. destruct H as [_ H].
+    destruct (tr_values x) as [|c cs]; [exact Logic.I|]. cbn [forallb] in H. apply andb_prop in H. destruct H as [H _].
+    apply Nat.eqb_eq in H. intros E. rewrite <- E. exact H.
+  Qed.
   Definition ready (cfg : tcfg) (a : targ) (reset : bool) (t : Z) (v : vals) (tr : traces) : Prop :=
     let names := names_of cfg (length v) a in
     names_valid v t names /\
-    exists p, py_pos (length tr) t = Some p /\ (reset = true \/ width_ok (nth p tr empty_trace) (length names)).
+    exists p, py_pos (length tr) t = Some p /\ (reset = true \/ width_ok (nth p tr empty_trace) names).
 
   Lemma snap_length v t names : length (snap v t names) = length names.
   Proof. unfold Tracer.snap. apply map_length. Qed.
@@ -260,32 +276,34 @@ Section TracerFacts.
     exists row'. split; [reflexivity|]. exists q. rewrite E'. exact Hq.
   Qed.
 
-  Lemma push_width names reset old lab res w :
-    reset = true \/ width_ok old w -> length res = w -> width_ok (push names reset old lab res) w.
+  Lemma push_width names reset old lab res :
+    reset = true \/ width_ok old names -> length res = length names -> width_ok (push names reset old lab res) names.
   Proof.
-    intros H Hl. unfold Tracer.push, width_ok in *. unfold Tracer.is_empty.
-    destruct (tr_values old) as [|c cs] eqn:E; cbn [orb tr_values]; [exact Hl|].
-    destruct reset; cbn [tr_values app]; [exact Hl|].
-    destruct H as [H|H]; [discriminate|exact H].
+    intros H Hl. unfold Tracer.push, Tracer.afresh, width_ok in *. unfold Tracer.is_empty.
+    destruct (tr_values old) as [|c cs] eqn:E; cbn [orb tr_values]; [intros _; exact Hl|].
+    destruct reset; cbn [orb tr_values app]; [intros _; exact Hl|].
+    destruct (names_eqb (tr_names old) names) eqn:En; cbn [negb tr_values tr_names app]; [|intros _; exact Hl].
+    destruct H as [H|H]; [discriminate|]. intros _. apply H. apply names_eqb_eq. exact En.
   Qed.
 
   (* the successful case of trace_t, in closed form *)
   Lemma trace_t_ok cfg t lab a reset v tr p :
     names_valid v t (names_of cfg (length v) a) ->
     py_pos (length tr) t = Some p ->
-    reset = true \/ width_ok (nth p tr empty_trace) (length (names_of cfg (length v) a)) ->
+    reset = true \/ width_ok (nth p tr empty_trace) (names_of cfg (length v) a) ->
     trace_t cfg t lab a reset v tr
     = (upd p (push (names_of cfg (length v) a) reset (nth p tr empty_trace) lab
                    (snap v t (names_of cfg (length v) a))) tr, None).
   Proof.
     intros Hv Hp Hw. unfold Tracer.trace_t. rewrite (gather_valid _ _ _ Hv). rewrite Hp.
-    unfold Tracer.push, Tracer.append_trace, Tracer.is_empty.
+    unfold Tracer.push, Tracer.afresh, Tracer.append_trace, Tracer.is_empty.
     set (names := names_of cfg (length v) a) in *. set (old := nth p tr empty_trace) in *.
     unfold width_ok in Hw.
     destruct (tr_values old) as [|c cs] eqn:E; cbn [orb tr_values tr_names tr_index app]; [reflexivity|].
-    destruct reset; cbn [tr_values tr_names tr_index app]; [reflexivity|].
+    destruct reset; cbn [orb tr_values tr_names tr_index app]; [reflexivity|].
+    destruct (names_eqb (tr_names old) names) eqn:En; cbn [negb tr_values tr_names tr_index app]; [|reflexivity].
     rewrite E. destruct Hw as [Hw|Hw]; [discriminate|].
-    rewrite Hw, snap_length, Nat.eqb_refl. reflexivity.
+    rewrite (Hw (proj1 (names_eqb_eq _ _) En)), snap_length, Nat.eqb_refl. reflexivity.
   Qed.
 
   (* ... and trace_t returns normally ONLY in that case: `ready` is exactly "trace_t cannot fail" *)
@@ -297,9 +315,10 @@ Section TracerFacts.
     pose proof (gather_inl _ _ _ _ G) as Hv. rewrite (gather_valid _ _ _ Hv) in G. inversion G; subst res.
     destruct (py_pos (length tr) t) as [p|] eqn:Hp; [|discriminate].
     intros H. split; [exact Hv|]. exists p. split; [reflexivity|].
-    unfold Tracer.append_trace, Tracer.is_empty, width_ok in *.
+    unfold Tracer.append_trace, Tracer.afresh, Tracer.is_empty, width_ok in *.
     destruct (tr_values (nth p tr empty_trace)) as [|c cs] eqn:E; [right; exact Logic.I|].
     cbn [orb] in H. destruct reset; [left; reflexivity|right].
+    intros En. apply names_eqb_eq in En. rewrite En in H. cbn [orb negb] in H.
     rewrite E in H. destruct (Nat.eqb (length c) (length (snap v t names))) eqn:EE; [|discriminate].
     apply Nat.eqb_eq in EE. rewrite snap_length in EE. exact EE.
   Qed.
@@ -331,7 +350,7 @@ Section TracerFacts.
        stays appendable *)
     Definition InvOn (v : vals) (x : traces) : Prop :=
       shape v = sh0 /\ length x = length tr0 /\
-      (reset = true \/ width_ok (nth p x empty_trace) (length names)) /\
+      (reset = true \/ width_ok (nth p x empty_trace) names) /\
       (forall q, q <> p -> nth q x empty_trace = nth q tr0 empty_trace).
     (* tracing off: the trace list is not touched at all *)
     Definition InvOff (v : vals) (x : traces) : Prop := shape v = sh0 /\ x = tr0.
@@ -601,13 +620,13 @@ Section TracerFacts.
       truthy a = true ->
       names_valid (vals_of s) t (names_of cfg (length (vals_of s)) a) ->
       py_pos (length tr) t = Some p ->
-      reset = true \/ width_ok (nth p tr empty_trace) (length (names_of cfg (length (vals_of s)) a)) ->
+      reset = true \/ width_ok (nth p tr empty_trace) (names_of cfg (length (vals_of s)) a) ->
       let R := traced_solve_t cfg a reset ev before after d o t s tr in
       let U := solve_t_M ev before after d o t s in
       (fst (fst R), snd R) = U /\
       shape (vals_of (fst U)) = shape (vals_of s) /\
       length (snd (fst R)) = length tr /\
-      (reset = true \/ width_ok (nth p (snd (fst R)) empty_trace) (length (names_of cfg (length (vals_of s)) a))) /\
+      (reset = true \/ width_ok (nth p (snd (fst R)) empty_trace) (names_of cfg (length (vals_of s)) a)) /\
       (forall q, q <> p -> nth q (snd (fst R)) empty_trace = nth q tr empty_trace).
     Proof.
       intros Ha Hv Hp Hw. cbv zeta. unfold Tracer.traced_solve_t. rewrite Ha.
@@ -663,7 +682,7 @@ Section TracerFacts.
       truthy a = true ->
       names_valid (vals_of s) t (names_of cfg (length (vals_of s)) a) ->
       py_pos (length tr) t = Some p ->
-      reset = true \/ width_ok (nth p tr empty_trace) (length (names_of cfg (length (vals_of s)) a)) ->
+      reset = true \/ width_ok (nth p tr empty_trace) (names_of cfg (length (vals_of s)) a) ->
       shape v0 = shape (vals_of s) ->
       let names := names_of cfg (length (vals_of s)) a in
       let tr1 := upd p (push names reset (nth p tr empty_trace) LStart (snap (vals_of s) t names)) tr in
@@ -742,7 +761,7 @@ Section TracerFacts.
       truthy a = true ->
       names_valid (vals_of s) t (names_of cfg (length (vals_of s)) a) ->
       py_pos (length tr) t = Some p -> length tr = length (status s) ->
-      reset = true \/ width_ok (nth p tr empty_trace) (length (names_of cfg (length (vals_of s)) a)) ->
+      reset = true \/ width_ok (nth p tr empty_trace) (names_of cfg (length (vals_of s)) a) ->
       traced_solve_t cfg a reset ev before after d o t s tr = ((s', tr'), out) ->
       out = Ret true \/ out = Ret false \/ out = Raise NonConvergenceError ->
       let names := names_of cfg (length (vals_of s)) a in
@@ -785,7 +804,7 @@ Section TracerFacts.
       truthy a = true ->
       names_valid (vals_of s) t (names_of cfg (length (vals_of s)) a) ->
       py_pos (length tr) t = Some p -> length tr = length (status s) ->
-      reset = true \/ width_ok (nth p tr empty_trace) (length (names_of cfg (length (vals_of s)) a)) ->
+      reset = true \/ width_ok (nth p tr empty_trace) (names_of cfg (length (vals_of s)) a) ->
       let R := traced_solve_t cfg a reset ev before after d o t s tr in
       exists l, run_index (map fst l) /\
         nth p (snd (fst R)) empty_trace
@@ -867,38 +886,64 @@ Section TracerFacts.
   End SolveT.
 
   (* ---------------------------------------------------------------- closed forms of `pushes` *)
+  Lemma names_eqb_refl names : names_eqb names names = true.
+  Proof. apply names_eqb_eq. reflexivity. Qed.
+
+  (* appending to a non-empty Trace recorded for the SAME names: nothing is lost, the entries follow in order *)
   Lemma pushes_append names (Y : trace) l :
-    tr_values Y <> [] ->
+    tr_values Y <> [] -> tr_names Y = names ->
     pushes num names false Y l = mkTrace (tr_names Y) (tr_index Y ++ map fst l) (tr_values Y ++ map snd l).
   Proof.
-    unfold pushes. revert Y. induction l as [|[lab res] l IH]; intros Y HY.
+    unfold pushes. revert Y. induction l as [|[lab res] l IH]; intros Y HY HN.
     - cbn [fold_left map]. rewrite !app_nil_r. destruct Y; reflexivity.
-    - cbn [fold_left fst snd map]. rewrite IH.
-      + unfold Tracer.push, Tracer.is_empty. destruct (tr_values Y) eqn:E; [congruence|].
-        cbn [orb tr_names tr_index tr_values]. rewrite <- !app_assoc. reflexivity.
-      + unfold Tracer.push, Tracer.is_empty. destruct (tr_values Y) eqn:E; [congruence|].
-        cbn [orb tr_values]. discriminate.
+    - cbn [fold_left fst snd map].
+      assert (E : push names false Y lab res = mkTrace (tr_names Y) (tr_index Y ++ [lab]) (tr_values Y ++ [res])).
+      { unfold Tracer.push, Tracer.afresh, Tracer.is_empty. destruct (tr_values Y) eqn:EV; [congruence|].
+        rewrite HN, names_eqb_refl. reflexivity. }
+      rewrite E. rewrite IH.
+      + cbn [tr_names tr_index tr_values]. rewrite <- !app_assoc. reflexivity.
+      + cbn [tr_values]. destruct (tr_values Y); [congruence|discriminate].
+      + cbn [tr_names]. exact HN.
+  Qed.
+
+  (* the first snapshot into an empty Trace, or into one recorded for OTHER names, starts the Trace afresh under the
+     names traced now; the rest follows *)
+  Lemma pushes_afresh names reset (X : trace) e l :
+    afresh num X reset names = true -> reset = false ->
+    pushes num names reset X (e :: l) = mkTrace names (fst e :: map fst l) (snd e :: map snd l).
+  Proof.
+    intros HX Hr. subst reset.
+    change (pushes num names false X (e :: l))
+      with (pushes num names false (push names false X (fst e) (snd e)) l).
+    assert (E : push names false X (fst e) (snd e) = mkTrace names [fst e] [snd e])
+      by (unfold Tracer.push; rewrite HX; reflexivity).
+    rewrite E. rewrite pushes_append; [reflexivity|cbn [tr_values]; discriminate|reflexivity].
   Qed.
 
   Lemma pushes_from_empty names (X : trace) e l :
     is_empty num X = true ->
     pushes num names false X (e :: l) = mkTrace names (fst e :: map fst l) (snd e :: map snd l).
   Proof.
-    intros HX.
-    change (pushes num names false X (e :: l))
-      with (pushes num names false (push names false X (fst e) (snd e)) l).
-    assert (E : push names false X (fst e) (snd e) = mkTrace names [fst e] [snd e])
-      by (unfold Tracer.push; rewrite HX; reflexivity).
-    rewrite E. rewrite pushes_append by (cbn [tr_values]; discriminate). reflexivity.
+    intros HX. apply pushes_afresh; [|reflexivity]. unfold Tracer.afresh. rewrite HX. reflexivity.
+  Qed.
+
+  Lemma pushes_other_names names (X : trace) e l :
+    tr_names X <> names ->
+    pushes num names false X (e :: l) = mkTrace names (fst e :: map fst l) (snd e :: map snd l).
+  Proof.
+    intros HX. apply pushes_afresh; [|reflexivity]. unfold Tracer.afresh.
+    destruct (names_eqb (tr_names X) names) eqn:E; [apply names_eqb_eq in E; congruence|].
+    rewrite orb_true_r. reflexivity.
   Qed.
 
   Lemma pushes_reset names (X : trace) l e :
     pushes num names true X (l ++ [e]) = mkTrace names [fst e] [snd e].
   Proof.
-    unfold pushes. rewrite fold_left_app. cbn [fold_left]. unfold Tracer.push. rewrite orb_true_r. reflexivity.
+    unfold pushes. rewrite fold_left_app. cbn [fold_left]. unfold Tracer.push, Tracer.afresh.
+    rewrite orb_true_r. reflexivity.
   Qed.
 
-  Lemma is_empty_width (X : trace) w : is_empty num X = true -> width_ok X w.
+  Lemma is_empty_width (X : trace) names : is_empty num X = true -> width_ok X names.
   Proof. unfold Tracer.is_empty, width_ok. destruct (tr_values X); [auto|discriminate]. Qed.
 
   (* ---------------------------------------------------------------- the property's second sentence *)
@@ -1003,7 +1048,7 @@ Section TracerFacts.
     (* `ready` at any period survives a traced solve of any period *)
     Lemma ready_preserved t t' v v' (tr tr' : traces) p :
       shape v' = shape v -> length tr' = length tr -> py_pos (length tr) t = Some p ->
-      (reset = true \/ width_ok (nth p tr' empty_trace) (length (names_of cfg (length v) a))) ->
+      (reset = true \/ width_ok (nth p tr' empty_trace) (names_of cfg (length v) a)) ->
       (forall q, q <> p -> nth q tr' empty_trace = nth q tr empty_trace) ->
       ready cfg a reset t' v tr -> ready cfg a reset t' v' tr'.
     Proof.
